@@ -184,8 +184,25 @@ impl<'a> Frame<'a> {
         R: BytesReader<'a>,
     {
         let kind = match bytes_reader.get_varint() {
-            Some(kind_id) => FrameKind::parse(kind_id).ok_or(ParseError::UnknownFrame)?,
+            Some(kind_id) => FrameKind::parse(kind_id),
             None => return Ok(None),
+        };
+
+        let Some(kind) = kind else {
+            // The whole unknown frame (length and payload included) must be discarded.
+            let payload_len = match bytes_reader.get_varint() {
+                Some(payload_len) => payload_len.into_inner() as usize,
+                None => return Ok(None),
+            };
+
+            if payload_len > Self::MAX_PARSE_PAYLOAD_ALLOWED {
+                return Err(ParseError::PayloadTooBig);
+            }
+
+            return match bytes_reader.get_bytes(payload_len) {
+                Some(_) => Err(ParseError::UnknownFrame),
+                None => Ok(None),
+            };
         };
 
         if matches!(kind, FrameKind::WebTransport) {
@@ -224,7 +241,31 @@ impl<'a> Frame<'a> {
         use crate::bytes::BytesReaderAsync;
 
         let kind_id = reader.get_varint().await?;
-        let kind = FrameKind::parse(kind_id).ok_or(IoReadError::Parse(ParseError::UnknownFrame))?;
+
+        let Some(kind) = FrameKind::parse(kind_id) else {
+            // The whole unknown frame (length and payload included) must be discarded.
+            let payload_len = reader
+                .get_varint()
+                .await
+                .map_err(|e| match e {
+                    bytes::IoReadError::ImmediateFin => bytes::IoReadError::UnexpectedFin,
+                    _ => e,
+                })?
+                .into_inner() as usize;
+
+            if payload_len > Self::MAX_PARSE_PAYLOAD_ALLOWED {
+                return Err(IoReadError::Parse(ParseError::PayloadTooBig));
+            }
+
+            let mut payload = vec![0; payload_len];
+
+            reader.get_buffer(&mut payload).await.map_err(|e| match e {
+                bytes::IoReadError::ImmediateFin => bytes::IoReadError::UnexpectedFin,
+                _ => e,
+            })?;
+
+            return Err(IoReadError::Parse(ParseError::UnknownFrame));
+        };
 
         if matches!(kind, FrameKind::WebTransport) {
             let session_id =
